@@ -1,4 +1,5 @@
 import CoercionModel.Proofs.Walk
+import CoercionModel.Proofs.WalkChain
 import CoercionModel.Generated.F5
 /-
   C19 — Walk visits every object once, in execution order, with its ancestors; stops at once.
@@ -74,6 +75,52 @@ theorem count (p : Plan) : (all p).length = countPlan p := by
     order the model uses. -/
 theorem facts_walk_order :
     Generated.F5.planOrder = planFieldOrder ∧ Generated.F5.blockOrder = blockFieldOrder := by decide
+
+/-- Ancestors: every item other than the plan comes after its parent, and its chain is exactly its
+    parent's chain followed by the parent — so every chain is the path from the plan down to the parent. -/
+theorem parent_precedes (p : Plan) (l1 : List Item) (it : Item) (l2 : List Item) (h : all p = l1 ++ it :: l2) :
+    it.chain = [] ∨ ∃ par ∈ l1, it.chain = par.chain ++ [par.id] := by
+  have := closed_split (specPlan p) [] l1 it l2 (closed_specPlan p) (by rw [← walk_spec]; exact h)
+  simpa [HasParentIn] using this
+
+/-- … and only the plan itself has the empty chain: every other chain starts at the plan. -/
+theorem chains_rooted (p : Plan) : ∀ it ∈ (all p).tail, it.chain.head? = some p.id := by
+  intro it h
+  simp only [walk_spec, specPlan, List.tail_cons, List.mem_append, List.mem_flatMap] at h
+  have ho : ∀ (ch : List Nat) (o : Option Checks) (x : Item), ch.head? = some p.id → x ∈ specOpt ch o → x.chain.head? = some p.id := by
+    intro ch o x hch hx
+    cases o with
+    | none => simp [specOpt] at hx
+    | some c =>
+      simp only [specOpt, specChecks, List.mem_cons, List.mem_map] at hx
+      rcases hx with rfl | ⟨a, _, rfl⟩
+      · exact hch
+      · cases ch <;> simp_all
+  have hq : ∀ (ch : List Nat) (q : Sequence) (x : Item), ch.head? = some p.id → x ∈ specSequence ch q → x.chain.head? = some p.id := by
+    intro ch q x hch hx
+    simp only [specSequence, List.mem_cons, List.mem_map] at hx
+    rcases hx with rfl | ⟨a, _, rfl⟩
+    · exact hch
+    · cases ch <;> simp_all
+  have hb : ∀ (b : Block) (x : Item), x ∈ specBlock [p.id] b → x.chain.head? = some p.id := by
+    intro b x hx
+    simp only [specBlock, List.mem_cons, List.mem_append, List.mem_flatMap] at hx
+    rcases hx with rfl | ((((hx | hx) | hx) | ⟨q, _, hx⟩) | hx) | hx
+    · rfl
+    all_goals first | exact ho _ _ _ (by simp) hx | exact hq _ _ _ (by simp) hx
+  rcases h with ((((h | h) | h) | ⟨b, _, h⟩) | h) | h
+  all_goals first | exact ho _ _ _ (by simp) h | exact hb _ _ h
+
+/-- Read backwards the walk is children-first: in the reversed order (the order of the engine's final
+    flush since fix 05cb03a) the parent of every item comes after it. -/
+theorem reverse_is_children_first (p : Plan) (l1 : List Item) (it : Item) (l2 : List Item) (h : (all p).reverse = l1 ++ it :: l2) :
+    it.chain = [] ∨ ∃ par ∈ l2, it.chain = par.chain ++ [par.id] := by
+  have h' : all p = l2.reverse ++ it :: l1.reverse := by
+    have := congrArg List.reverse h
+    simpa using this
+  rcases parent_precedes p _ it _ h' with h0 | ⟨par, hp, hc⟩
+  · exact .inl h0
+  · exact .inr ⟨par, by simpa using hp, hc⟩
 
 /-! ### non-vacuity: a concrete plan with absent groups, an empty action list and two blocks -/
 def ex : Plan :=
